@@ -260,6 +260,7 @@ def _listeners(ctx):
     cp = ctx.path("cases_srv.ndjson")
     vlib.write_ndjson(cp, cases)
     tp, out = ctx.godriver("c11", "TestC11", out_name="trace_srv.ndjson", cases=cp, timeout=420 if q else 1200,
+                           extra=("-timeout", "%ds" % (390 if q else 1170)),
                            env={"VERIF_C11_LANES": os.environ.get("VERIF_C11_LANES", "12" if q else "24")})
     events = vlib.read_ndjson(tp)
     cfg, events = events[0], events[1:]
@@ -282,7 +283,7 @@ def _listeners(ctx):
         by[where] += 1
         cur = e["prov"]["cur"]
         if e["ev"] == "probe" and e["ck"] != cur:
-            by[where + " request under an older key"] += 1
+            by[where + " request under an older key"] += 1     # (informational: depends on what the server did)
     # requests of the real client whose cookie was sealed under a key that is not the current one any more
     for b in behs:
         last = None
@@ -313,8 +314,13 @@ def _listeners(ctx):
                          "%d x 12 h before the cookie was issued (behaviour %d; provider, in 12 h units: %s; cookie keys %s)"
                          % (clause, where, worst, worst + 1, e["b"], e["prov"], sorted({c["key"] for c in e["cookies"]})),
                          {"cfg": cfg, "events": evs[s0:pos]})
-    need = ("ntp ip", "ntp ip request under an older key", "probe ip", "probe scion",
-            "probe ip request under an older key", "probe scion request under an older key", "ke")
+    # vacuity: rotations are guarded on the specification's side (gstat, above); here only that every issuer
+    # was heard, and that the schedule's foreign requests under an older held key were sent to both listeners
+    for e in events:
+        if e["ev"] == "probe" and e["kb"] > 1 and e["kv"]:
+            by["probe %s sent under an older held key" % e["tr"]] += 1
+    need = ("ke", "ntp ip", "probe ip", "probe scion", "probe ip sent under an older held key",
+            "probe scion sent under an older held key")
     if not sigs and any(not by[k] for k in need):
         raise vlib.Inconclusive("listener coverage incomplete: %s" % dict(by))
     for sig, (what, rp) in sorted(sigs.items()):
